@@ -247,7 +247,10 @@ def bandlimited_rms(r, psd, wllow=None, wlhigh=None, flow=None, fhigh=None):
 
     work = psd.copy()
     work[r < flow] = 0
-    work[r > fhigh] = 0
+    # the band is [flow, fhigh): a sample exactly on an edge shared by two adjacent bands belongs to the
+    # upper one only, so that adjacent bands add in quadrature.  A band reaching the top of the data keeps it all.
+    if fhigh < default_max:
+        work[r >= fhigh] = 0
     if r.ndim == 2:
         c = tuple(s//2 for s in work.shape)
         c2 = list(c)
